@@ -13,19 +13,28 @@ REPO = os.environ.get('VERIF_REPO', '/repo')
 
 
 def run(tier='quick', only=None):
-    seeds = sorted(d for d in os.listdir(os.path.join(VERIF, 'seeded')) if os.path.exists(os.path.join(VERIF, 'seeded', d, 'patch.diff')))
+    entries = []
+    for base in ('seeded', 'seeded_pyx'):
+        root = os.path.join(VERIF, base)
+        if not os.path.isdir(root):
+            continue
+        for d in sorted(os.listdir(root)):
+            if not os.path.exists(os.path.join(root, d, 'patch.diff')):
+                continue
+            meta = json.load(open(os.path.join(root, d, 'meta.json'))) if os.path.exists(os.path.join(root, d, 'meta.json')) else {}
+            for pid in meta.get('properties') or [meta.get('property', d.split('-')[0])]:
+                entries.append((f'{d}@{pid}' if meta.get('properties') else d, d, pid, os.path.join(root, d, 'patch.diff')))
     if only:
-        seeds = [s for s in seeds if s in only]
+        entries = [e for e in entries if e[0] in only or e[1] in only or e[2] in only]
+    seeds = [e[0] for e in entries]
     bad = []
-    for sid in seeds:
-        meta = json.load(open(os.path.join(VERIF, 'seeded', sid, 'meta.json'))) if os.path.exists(os.path.join(VERIF, 'seeded', sid, 'meta.json')) else {}
-        pid = meta.get('property', sid.split('-')[0])
-        scratch = tempfile.mkdtemp(prefix=f'verif_selftest_{sid}_', dir=os.environ.get('VERIF_SCRATCH', '/tmp'))
+    for sid, dname, pid, patch in entries:
+        scratch = tempfile.mkdtemp(prefix=f'verif_selftest_{dname}_', dir=os.environ.get('VERIF_SCRATCH', '/tmp'))
         try:
             shutil.copytree(os.path.join(REPO, 'src'), os.path.join(scratch, 'src'))
             os.makedirs(os.path.join(scratch, 'tests'))
             shutil.copytree(os.path.join(REPO, 'tests', 'data'), os.path.join(scratch, 'tests', 'data'))
-            p = subprocess.run(['patch', '-p1', '-s', '-i', os.path.join(VERIF, 'seeded', sid, 'patch.diff')], cwd=scratch, capture_output=True, text=True)
+            p = subprocess.run(['patch', '-p1', '-s', '-i', patch], cwd=scratch, capture_output=True, text=True)
             if p.returncode != 0:
                 print(f'{sid}: patch does not apply ({p.stdout.strip()[:200]})', flush=True)
                 bad.append(sid)
